@@ -1,7 +1,7 @@
 (* C06 — executable comparison functions used by the generated cases file (no proofs). *)
 From Coq Require Import List NArith Bool Arith.
 From Coq Require String Ascii.
-From Dae Require Import C06_Spec C06_Model C06_Async C06_Session.
+From Dae Require Import C06_Spec C06_Model C06_Async C06_Session C06_Clock.
 Import ListNotations.
 Open Scope N_scope.
 
@@ -19,6 +19,9 @@ Fixpoint H (s : String.string) : bytes :=
    impl <> spec  : 2 required name not reported (or another one)   6 relay bytes or status differ from what
                    the client sent   7 panic   8 reported name occurs nowhere in the client's bytes
                    11 waited past the timeout   12 datagrams altered
+                   14 a read was armed with a deadline other than construction time + timeout (the sniff
+                      timeout would not bound the whole sniff)
+   model <> spec : 15 the virtual-clock run under the extracted deadline policy returns after origin + timeout
    model <> spec : 3 name   9 relay   10 the model reads out of bounds (Oob under the strict locator) *)
 
 Definition rstatus_eqb (a b : rstatus) : bool :=
@@ -76,7 +79,11 @@ Record tcp_case := {
   tc_relay : bytes;
   tc_relay_st : rstatus;
   tc_relay_bad : bool;                  (* relay panicked or the sniffer never signalled readiness *)
-  tc_late : bool }.
+  tc_late : bool;
+  tc_deadlines : list N;                (* read deadlines armed during the sniff, ns after the instant before construction *)
+  tc_ctor : N;                          (* ns the construction took *)
+  tc_timeout : N;                       (* the sniff timeout, ns *)
+  tc_delays : list N }.                 (* virtual arrival delay of each script event (ticks of timeout/1000) *)
 
 Definition benign (e : rd) : bool := match rd_status e with RsOk | RsEof => true | _ => false end.
 
@@ -150,7 +157,16 @@ Definition check_tcp (c : tcp_case) : list N :=
   let e9 := if outcome_eqb m_out Oob then [] else if pair_eqb m_relay s_relay then [] else [9] in
   let e10 := if outcome_eqb strict_out Oob || outcome_eqb m_out Oob || outcome_eqb m_out OutOfFuel then [10] else [] in
   let e11 := if tc_late c then [11] else [] in
-  e1 ++ e4 ++ e5 ++ e2 ++ e6 ++ e7 ++ e8 ++ e11 ++ e3 ++ e9 ++ e10.
+  (* the deterministic timing observable: every armed deadline = construction instant + timeout *)
+  let e14 := if forallb (fun d => (tc_timeout c <=? d) && (d <=? tc_timeout c + tc_ctor c)) (tc_deadlines c)
+                && match tc_deadlines c with [] => true | d0 :: r => forallb (N.eqb d0) r end
+             then [] else [14] in
+  (* the same script as an arrival schedule on the virtual clock, under the policy extracted from the source *)
+  let sched := map (fun p => {| ar_delay := fst p; ar_data := rd_data (snd p) |})
+                   (combine (tc_delays c) (filter (fun e => match rd_status e with RsOk => true | _ => false end) script)) in
+  let '(_, tfin, _, _, ds) := clock_sniff extracted_policy 0 1000 (fun b => sniff_group_tcp b [0]) sched in
+  let e15 := if (tfin <=? 1000) && forallb (N.eqb 1000) ds then [] else [15] in
+  e1 ++ e4 ++ e5 ++ e2 ++ e6 ++ e7 ++ e8 ++ e11 ++ e14 ++ e3 ++ e9 ++ e10 ++ e15.
 
 Definition outcome_code (o : outcome) : N :=
   match o with
